@@ -28,9 +28,11 @@ term, or raises).  Two small interpreters over the `ast` do the work:
         `match`, dict of classes, helper method, walrus, early return), on EVERY path exactly the step class with that
         `repr` must be appended to `self._build_stack` (")" pushes nothing).  (The pop loop is modelled by hand as
         `Shunting.popLoop` and tied by the correspondence check.)
-      - `Tokenizer.__next__`: the body of its character loop is run on every character literal it mentions plus a
-        fresh one: `continue` = whitespace, `return Token(TokenType.OPER, char)` = operator character,
-        `return Token(TokenType.COMPONENT_METRIC, ...)` = metric marker, `raise ValueError` = anything else.
+      - `Tokenizer.__next__`: the whole method is run on concrete inputs ([], [c], [w, x], [w, w', x] for every character
+        literal it mentions plus a fresh one): running into StopIteration after consuming c = whitespace,
+        `return Token(TokenType.OPER, c)` (positional or keyword) = operator character, `return
+        Token(TokenType.COMPONENT_METRIC, ...)` = metric marker, `raise ValueError` = anything else; the loop may be a
+        for / for-else / break-and-dispatch-after-the-loop / `next(it)`.
 
 `hoBuilderKeepsOnlyTokens` (see `ho_builder_keeps_only_tokens`): the higher-order builder classes write no instance
 attribute besides the token deque outside `__init__` and `build` mutates nothing it does not own — what
@@ -863,6 +865,19 @@ class Pe:
     def effect(self, call: ast.Call, func_src: str, args: list):  # overridden: record interesting calls
         return None
 
+    def field_order(self, cname: str) -> list[str] | None:
+        """Parameter names of `cname(...)` for a class of this module: `__init__`'s, else the dataclass fields."""
+        if cname not in self.mod.classes:
+            return None
+        init = self.mod.method(cname, "__init__")
+        if init is not None:
+            a = init[0].args
+            return None if (a.vararg or a.kwarg) else [x.arg for x in a.posonlyargs + a.args][1:] + [x.arg for x in a.kwonlyargs]
+        c = self.mod.classes[cname]
+        if not any("dataclass" in ast.unparse(d) for d in c.decorator_list):
+            return None
+        return [n.target.id for n in c.body if isinstance(n, ast.AnnAssign) and isinstance(n.target, ast.Name)]
+
     def opaque(self, src: ast.expr):  # overridden: value of a call / subscript this interpreter knows nothing about
         return U
 
@@ -1070,6 +1085,12 @@ class Pe:
             return [(Sym("inst", fv.name), env, eff)]
         if isinstance(fv, Sym) and fv.kind == "name" and fv.name == "repr":
             return [(U, env, eff)]
+        if isinstance(fv, Sym) and fv.kind in ("name", "class") and kwargs:
+            order = self.field_order(fv.name)
+            if order is None or set(kwargs) - set(order) or set(order[:len(args)]) & set(kwargs) \
+                    or sorted(order[len(args):][:len(kwargs)]) != sorted(kwargs):
+                return [(U, env, eff)]
+            args, kwargs = list(args) + [kwargs[k] for k in order[len(args):len(args) + len(kwargs)]], {}
         if isinstance(fv, Sym) and fv.kind in ("name", "class"):
             if all(_known(a) for a in args) and not kwargs:
                 return [(Sym("call", fv.name, tuple(a if not isinstance(a, (dict, Fn)) else U for a in args)), env, eff)]
@@ -1348,24 +1369,89 @@ def check_push_oper(engine: Module) -> None:
 
 
 # ---------------------------------------------------------------- tokenizer character classes
+ITER = Sym("iter", "the tokenizer's character iterator")
+
+
+class TokPe(Pe):
+    """`Tokenizer.__next__` on a CONCRETE sequence of characters: `self.<iterator attribute>` is an iterator over the
+    characters in `env["__rem__"]`; a `for` over it runs concretely (break / continue / else as in Python, the
+    loop variable stays bound afterwards), `next(<it>)` / `next(<it>, default)` consume one character."""
+
+    def __init__(self, mod: Module, attr: str) -> None:
+        super().__init__(mod, "Tokenizer", "Tokenizer.__next__", {"Token"}, inline_self=False)
+        self.attr = attr
+
+    def eval(self, e: ast.expr, env: dict, eff: tuple) -> list:
+        if isinstance(e, ast.Attribute) and e.attr == self.attr and isinstance(e.value, ast.Name) and env.get(e.value.id) is SELF:
+            return [(ITER, env, eff)]
+        if isinstance(e, ast.Call) and isinstance(e.func, ast.Name) and e.func.id in ("next", "iter") and e.func.id not in env \
+                and 1 <= len(e.args) <= 2 and not e.keywords:
+            out = []
+            for vs, e2, f2 in self.eval_list(list(e.args), env, eff):
+                if vs[0] is not ITER:
+                    out.append((U, e2, f2))
+                elif e.func.id == "iter":
+                    out.append((ITER, e2, f2))
+                elif e2["__rem__"]:
+                    out.append((e2["__rem__"][0], {**e2, "__rem__": e2["__rem__"][1:]}, f2))
+                elif len(vs) == 2:
+                    out.append((vs[1], e2, f2))
+                else:
+                    out.append(("__raise__", "StopIteration", e2, f2))
+            return self.split_raises(out)
+        return super().eval(e, env, eff)
+
+    def step(self, s: ast.stmt, env: dict, eff: tuple) -> list:
+        if isinstance(s, ast.For):
+            its = self.eval(s.iter, env, eff)
+            if len(its) == 1 and its[0][0] is ITER:
+                return self.loop(s, its[0][1], its[0][2], 0)
+        return super().step(s, env, eff)
+
+    def loop(self, s: ast.For, env: dict, eff: tuple, depth: int) -> list:
+        if depth > 8:
+            self.bad("character loop does not terminate on a finite input")
+        if not env["__rem__"]:
+            return self.run(s.orelse, env, eff)
+        env = self.bind(s.target, env["__rem__"][0], {**env, "__rem__": env["__rem__"][1:]})
+        out = []
+        for kind, v, e2, f2 in self.run(s.body, env, eff):
+            if kind in ("next", "continue"):
+                out += self.loop(s, e2, f2, depth + 1)
+            elif kind == "break":
+                out.append(("next", None, e2, f2))
+            else:
+                out.append((kind, v, e2, f2))
+        return out
+
+
 def tokenizer_chars(tok: Module) -> tuple[list[str], list[str], str]:
-    """The character classes of `Tokenizer.__next__`, by what its character loop does with each character."""
+    """The character classes of `Tokenizer.__next__`, by what the method does on concrete inputs: on the one-character
+    input [c] it returns `Token(TokenType.OPER, c)` (operator character), returns `Token(TokenType.COMPONENT_METRIC,
+    <digits read by the helper>)` (metric marker), raises ValueError (anything else) or runs into StopIteration (c was
+    skipped: whitespace); on the empty input it raises StopIteration; and skipping really continues: [w, x] behaves
+    like [x] (and [w, w', x] like [x]) for every whitespace w, w' and a representative x of every class.  Every test on
+    a character must be a comparison with literals, so all unmentioned characters behave like one fresh character."""
     m = tok.method("Tokenizer", "__next__")
-    if m is None:
+    if m is None or isinstance(m[0], ast.AsyncFunctionDef):
         raise Unsupported("Tokenizer.__next__ not found")
     fn = m[0]
-    loops = [n for n in _strip_doc(fn.body) if isinstance(n, (ast.For, ast.While))]
-    if len(loops) != 1 or not isinstance(loops[0], ast.For) or not isinstance(loops[0].target, ast.Name) or loops[0].orelse:
-        raise Unsupported("Tokenizer.__next__: no unique `for <char> in <formula>` loop")
-    loop = loops[0]
-    var = loop.target.id
-    for n in ast.walk(loop):
-        if isinstance(n, ast.Name) and n.id == var and isinstance(n.ctx, ast.Store) and n is not loop.target:
-            raise Unsupported("Tokenizer.__next__: the loop variable is reassigned")
-    # every test on the character must be a comparison with literals: then all characters that are not mentioned
-    # behave like one fresh character
+    self_name = fn.args.args[0].arg
+    body = _strip_doc(fn.body)
+    body_mod = ast.Module(body=body, type_ignores=[])
+    attrs = {n.iter.attr for n in ast.walk(body_mod) if isinstance(n, ast.For) and isinstance(n.iter, ast.Attribute)
+             and isinstance(n.iter.value, ast.Name) and n.iter.value.id == self_name}
+    attrs |= {n.args[0].attr for n in ast.walk(body_mod) if isinstance(n, ast.Call) and isinstance(n.func, ast.Name)
+              and n.func.id == "next" and n.args and isinstance(n.args[0], ast.Attribute)
+              and isinstance(n.args[0].value, ast.Name) and n.args[0].value.id == self_name}
+    if len(attrs) != 1:
+        raise Unsupported(f"Tokenizer.__next__: no unique character iterator (`for <char> in self.<attr>`): {sorted(attrs)}")
+    attr = attrs.pop()
+    # names that hold a character: loop targets / names assigned from next(<it>)
+    char_vars = {n.target.id for n in ast.walk(body_mod) if isinstance(n, ast.For) and isinstance(n.target, ast.Name)}
+    char_vars |= {t.id for n in ast.walk(body_mod) if isinstance(n, (ast.Assign, ast.NamedExpr))
+                  for t in ([n.target] if isinstance(n, ast.NamedExpr) else n.targets) if isinstance(t, ast.Name)}
     lits: set[str] = set()
-    body_mod = ast.Module(body=loop.body, type_ignores=[])
     in_fstring = {id(c) for n in ast.walk(body_mod) if isinstance(n, ast.JoinedStr) for c in ast.walk(n)}
     for n in ast.walk(body_mod):
         if isinstance(n, ast.Constant) and isinstance(n.value, str) and id(n) not in in_fstring:
@@ -1374,36 +1460,52 @@ def tokenizer_chars(tok: Module) -> tuple[list[str], list[str], str]:
             for c in ast.walk(tok.consts[n.id]):
                 if isinstance(c, ast.Constant) and isinstance(c.value, str):
                     lits.update(c.value)
-        if isinstance(n, ast.Attribute) and isinstance(n.value, ast.Name) and n.value.id == var:
+        if isinstance(n, ast.Attribute) and isinstance(n.value, ast.Name) and n.value.id in char_vars and id(n) not in in_fstring:
             raise Unsupported(f"Tokenizer.__next__: test `{ast.unparse(n)}` on the character is not a comparison with literals")
-        if isinstance(n, ast.Attribute) and isinstance(n.value, ast.Name) and n.value.id == fn.args.args[0].arg \
+        if isinstance(n, ast.Attribute) and isinstance(n.value, ast.Name) and n.value.id == self_name \
                 and tok.class_const("Tokenizer", n.attr) is not None:
             for c in ast.walk(tok.class_const("Tokenizer", n.attr)):
                 if isinstance(c, ast.Constant) and isinstance(c.value, str):
                     lits.update(c.value)
     fresh = next(chr(x) for x in range(0xE000, 0xF8FF) if chr(x) not in lits)
-    classes: dict[str, list[str]] = {"ws": [], "oper": [], "metric": [], "error": []}
-    pe = Pe(tok, "Tokenizer", "Tokenizer.__next__", {"Token"}, inline_self=False)
-    self_name = fn.args.args[0].arg
-    for c in sorted(lits | {fresh}):
-        outs = pe.run(loop.body, {self_name: SELF, var: c}, ())
-        roles = set()
-        for kind, v, _e, _f in outs:
-            if kind in ("next", "continue"):
-                roles.add("ws")
+    pe = TokPe(tok, attr)
+
+    def outcome(seq: tuple[str, ...]):
+        """(role, character the token was made of) of `__next__` on the input `seq`."""
+        outs = pe.run(body, {self_name: SELF, "__rem__": tuple(seq)}, ())
+        res = set()
+        for kind, v, env, _f in outs:
+            if kind == "raise" and v == "StopIteration":
+                res.add(("end", None))
             elif kind == "raise" and v == "ValueError":
-                roles.add("error")
+                res.add(("error", None))
             elif kind == "return" and isinstance(v, Sym) and v.kind == "call" and v.name == "Token" and len(v.args) == 2 \
-                    and v.args[0] == Sym("name", "TokenType.OPER") and v.args[1] == c:
-                roles.add("oper")
+                    and v.args[0] == Sym("name", "TokenType.OPER") and isinstance(v.args[1], str):
+                res.add(("oper", v.args[1], len(seq) - len(env["__rem__"])))
             elif kind == "return" and isinstance(v, Sym) and v.kind == "call" and v.name == "Token" and len(v.args) == 2 \
                     and v.args[0] == Sym("name", "TokenType.COMPONENT_METRIC") and v.args[1] is U:
-                roles.add("metric")
+                res.add(("metric", None, len(seq) - len(env["__rem__"])))
             else:
-                raise Unsupported(f"Tokenizer.__next__: character {c!r}: unknown outcome {kind} {v}")
-        if len(roles) != 1:
-            raise Unsupported(f"Tokenizer.__next__: character {c!r}: outcomes {sorted(roles)}")
-        classes[roles.pop()].append(c)
+                raise Unsupported(f"Tokenizer.__next__ on {list(seq)!r}: unknown outcome {kind} {v}")
+        if len(res) != 1:
+            raise Unsupported(f"Tokenizer.__next__ on {list(seq)!r}: outcomes {sorted(map(str, res))}")
+        return res.pop()
+
+    if outcome(()) != ("end", None):
+        raise Unsupported("Tokenizer.__next__: the empty input does not raise StopIteration")
+    classes: dict[str, list[str]] = {"ws": [], "oper": [], "metric": [], "error": []}
+    for c in sorted(lits | {fresh}):
+        o = outcome((c,))
+        if o == ("end", None):
+            classes["ws"].append(c)
+        elif o == ("oper", c, 1):
+            classes["oper"].append(c)
+        elif o == ("metric", None, 1):
+            classes["metric"].append(c)
+        elif o == ("error", None):
+            classes["error"].append(c)
+        else:
+            raise Unsupported(f"Tokenizer.__next__: character {c!r}: outcome {o}")
     if fresh not in classes["error"]:
         raise Unsupported("Tokenizer.__next__: an unmentioned character is not rejected with ValueError")
     ws, ops, metric = classes["ws"], classes["oper"], classes["metric"]
@@ -1411,7 +1513,19 @@ def tokenizer_chars(tok: Module) -> tuple[list[str], list[str], str]:
         raise Unsupported(f"Tokenizer.__next__: character classes found: ws={ws} oper={ops} metric={metric}")
     if set(ops) != {"+", "-", "*", "/", "(", ")"}:
         raise Unsupported(f"Tokenizer operator characters changed: {ops}")
+    # skipping continues with the next character, and consumes exactly the skipped ones
+    for x in (ops[0], metric[0], fresh, ws[0]):
+        want = outcome((x,))
+        for w in ws:
+            for seq in ((w, x), (w, ws[-1], x)):
+                got = outcome(seq)
+                if got[:2] != want[:2] or (len(got) == 3 and got[2] != len(seq)):
+                    raise Unsupported(f"Tokenizer.__next__: {list(seq)!r} gives {got}, {[x]!r} gives {want}")
     return sorted(ws, key=ord), sorted(ops, key="+-*/()".index), metric[0]
+
+
+def _lean_char(c: str) -> str:
+    return f"(Char.ofNat {ord(c)})"
 
 
 # ---------------------------------------------------------------- builder objects keep no state besides their tokens
@@ -1497,10 +1611,6 @@ def ho_builder_keeps_only_tokens(engine: Module) -> tuple[bool, str]:
                     elif chain[-1:] != [tok] and not (not chain and root.id in local_names):
                         return False, f"{where}: mutates {ast.unparse(n.func.value)!r}"
     return True, ""
-
-
-def _lean_char(c: str) -> str:
-    return f"(Char.ofNat {ord(c)})"
 
 
 def generate(repo: pathlib.Path) -> str:
